@@ -17,7 +17,8 @@ import traceback
 VERIF = os.path.dirname(os.path.dirname(os.path.abspath(__file__)))
 KNOWN_FILE = os.path.join(VERIF, 'KNOWN_FINDINGS.txt')
 MAX_UNKNOWN = 6          # stop exploring after this many distinct unknown witnesses
-MIN_BUDGET = 4000        # check evaluations per minimisation
+MIN_BUDGET = 800         # check evaluations per minimisation
+MIN_TOTAL = 12000        # ... and per worker process in one run
 
 # ----------------------------------------------------------------------------- counters
 _COUNT = {'transitions': 0, 'validated': 0}
@@ -101,6 +102,9 @@ def load_known():
 
 # ----------------------------------------------------------------------------- minimisation
 
+_MIN_SPENT = [0]
+
+
 def minimise(prop, case, clause, memo, budget=MIN_BUDGET):
     """All minimal witnesses reachable from `case` through failing one-step reductions
     (same clause).  memo: key -> frozenset of failing clauses."""
@@ -121,9 +125,10 @@ def minimise(prop, case, clause, memo, budget=MIN_BUDGET):
         for red in reduce_fn(cur):
             rk = case_key(red)
             if rk not in memo:
-                if evals >= budget:
+                if evals >= budget or _MIN_SPENT[0] >= MIN_TOTAL:
                     continue
                 evals += 1
+                _MIN_SPENT[0] += 1
                 try:
                     memo[rk] = frozenset(f.clause for f in safe_check(prop, red))
                 except Exception:  # noqa: BLE001  (oracle cannot judge the reduced case)
